@@ -12,6 +12,7 @@ import GocoinV.Spec.SigHash
 import GocoinV.Proofs.C02Cache
 import GocoinV.Proofs.C02Spec
 import GocoinV.Proofs.C02Legacy
+import GocoinV.Proofs.C02DelSig
 namespace GocoinV.Props.C02
 open GocoinV GocoinV.SigHash
 open GocoinV.Wire (Tx TxIn TxOut)
@@ -45,12 +46,24 @@ theorem legacy_defined (tx : Tx) (scriptCode : Bytes) (idx ht : Nat) (hi : idx <
 -- verdict `false` there (evalScript fails on the undecodable opcode). That needs the script interpreter
 -- model of C01; here such script codes are outside `Spec.legacy` (it returns `none`) and are only compared
 -- model-vs-code by the harness.
--- OPEN: `delSig_eq_findAndDelete`: Model.delSig wh sig = Spec.findAndDelete wh sig for sig.length < 76 and
--- decodable `wh` is compared by the harness (Lean model vs Go reference, and end-to-end through
--- VerifyTxScript with the signature embedded in the scriptPubKey) but not proved. For 76 ≤ sig.length
--- the two DIFFER (gocoin builds the pattern with PutVlen, i.e. `len‖sig` instead of `4c len‖sig`): a
--- signature push of ≥ 76 bytes is never removed. Such signatures fail strict DER (BIP66, buried), so no
--- digest of a verifying signature is affected today; recorded as an observation, not a finding.
+
+/-- Signature removal: for every script code that decodes into operations and every signature (any
+    length: direct push below 76 bytes, PUSHDATA1 for 76..255, PUSHDATA2 for 256..65535, PUSHDATA4 above),
+    gocoin's `delSig` returns exactly FindAndDelete(script, CScript() << sig): the script without the
+    operations that are the canonical push of the signature, and the number of operations removed.
+    (Model.delSig mirrors the code after fix acaf95d6; before it the pattern was `CompactSize(len)‖sig`,
+    which is not a script push for len ≥ 76, so such a signature push was never removed.) -/
+theorem delSig_eq_findAndDelete (wh sig : Bytes) (ops : List Bytes) (h : Spec.SigHash.parse wh = some ops) :
+    Spec.SigHash.findAndDelete wh sig = some (delSig wh sig) := by
+  unfold Spec.SigHash.findAndDelete
+  rw [h, delSig_eq wh sig ops h]
+
+/-- FindAndDelete is defined exactly on the scripts that decode (so the theorem above covers every case
+    in which the specification says anything). -/
+theorem findAndDelete_defined_iff (wh sig : Bytes) :
+    (Spec.SigHash.findAndDelete wh sig).isSome = (Spec.SigHash.parse wh).isSome := by
+  unfold Spec.SigHash.findAndDelete
+  cases Spec.SigHash.parse wh <;> rfl
 
 /-- BIP143: for every transaction, input index, script code, amount and 32-bit hash type for which
     BIP143 defines a message, and for every state of the cache reachable on this transaction object,
@@ -188,6 +201,13 @@ example : (Spec.SigHash.bip341 (fun b => b) exTx exSpent 0 0x83 (some [0x50]) (s
 -- bip341_undefined_is_nil / undefined_is_failure: … and undefined (hash type 4; SINGLE on input 1 of 1 output)
 example : Spec.SigHash.bip341 (fun b => b) exTx exSpent 0 4 none none = none := by decide
 example : Spec.SigHash.bip341 (fun b => b) exTx exSpent 1 3 none none = none := by decide
+-- delSig_eq_findAndDelete: a 76-byte signature pushed with PUSHDATA1 between two other operations is removed
+-- (and a direct-push look-alike `4c‖sig` data is not touched when the signature is short)
+example : Spec.SigHash.parse ([0x51] ++ (0x4c :: 76 :: List.replicate 76 7) ++ [0xac]) =
+    some [[0x51], 0x4c :: 76 :: List.replicate 76 7, [0xac]] := by decide
+example : delSig ([0x51] ++ (0x4c :: 76 :: List.replicate 76 7) ++ [0xac]) (List.replicate 76 7) = ([0x51, 0xac], 1) := by decide
+example : delSig ([0x51] ++ (75 :: List.replicate 75 7) ++ [0xac]) (List.replicate 75 7) = ([0x51, 0xac], 1) := by decide
+example : (delSig ((0x4d :: 0 :: 1 :: List.replicate 256 7) ++ [0xac]) (List.replicate 256 7)) = ([0xac], 1) := by decide +kernel
 -- Cache.OK is satisfiable by a non-empty cache (the one left by a BIP143 request)
 example : (witnessSigHash (fun b => b) exTx {} [0xac] 1 0 1).2.hashPrevouts.isSome = true := by decide
 -- cache_transparent: its hypothesis holds for exTx / exSpent
